@@ -212,13 +212,13 @@ class Open(object):
                 # Go to next Optional Parameter
                 self.opt_paras = self.opt_paras[opt_para_length + 2:]
 
-            return {
-                'version': self.version,
-                'asn': self.asn,
-                'hold_time': self.hold_time,
-                'bgp_id': self.bgp_id,
-                'capabilities': self.capa_dict
-            }
+        return {
+            'version': self.version,
+            'asn': self.asn,
+            'hold_time': self.hold_time,
+            'bgp_id': self.bgp_id,
+            'capabilities': self.capa_dict
+        }
 
     @staticmethod
     def construct_header(msg):
